@@ -1,5 +1,7 @@
 import Tengo.Props.C05
 import Tengo.Props.C05VM
+import Tengo.Props.C05Acyclic
 /-! C05: the protocol theorems over `Model/Conc` (`C05`) and their instantiation with the behaviour of a
-configuration of the whole-VM model, whose outcome classes are derived from `VM.exec` (`C05VM`) — as one module
-for the checker. -/
+configuration of the whole-VM model, whose outcome classes are derived from `VM.exec` (`C05VM`), and
+`no_fatal_acyclic`: no fatal class on values/stacks of bounded nesting depth (`C05Acyclic`) — as one module for the
+checker. -/
